@@ -38,6 +38,10 @@ static SSIZE_T read(HANDLE fd, void *ptr, size_t size)
 #endif
 
 #define BUFSZ (131072)
+#ifdef AGENTD_SQUASHFS_TOOLS_NG_VERIF_BUFSZ /* verification hook: scale the buffer for bounded checking */
+#undef BUFSZ
+#define BUFSZ (AGENTD_SQUASHFS_TOOLS_NG_VERIF_BUFSZ)
+#endif
 
 typedef struct {
 	sqfs_istream_t base;
